@@ -37,7 +37,7 @@ MANIFEST = dict(
     technique="Lean 4 proof (character-level case analysis with omega, mutual structural induction printer/parser, finite-state matcher invariant, "
               "list induction for scan/dedup) + differential correspondence",
 )
-PROP_FILES = ["HtmlVerif/Props/C13.lean", "HtmlVerif/Props/ConstsJson.lean", "HtmlVerif/Props/SrcNeutralise.lean"]
+PROP_FILES = ["HtmlVerif/Props/C13.lean", "HtmlVerif/Props/ConstsJson.lean", "HtmlVerif/Props/SrcNeutralise.lean", "HtmlVerif/Props/SrcC13.lean"]
 
 OPEN = '<script type="application/json" data-html-dependency="">'
 CLOSE = "</script>"
@@ -539,6 +539,7 @@ def run(tier: str) -> int:
     import srctie_c08       # `str.replace` as stated in Py/PrimC08.lean (Props/SrcNeutralise.lean) against the interpreter
     repl = srctie_c08.replace_lines(rng, 300 if tier == "quick" else 3000)
     ck.src_lines += list(zip(repl, core.impl_many(repl)))
+    __import__("srctie_c13").add_src_c13(ck)       # Props/SrcC13.lean: the regenerated extraction / __init__ / render / serialize and Py/PrimC13.lean against the interpreter
     ck.correspond(holds=True)
 
     # ---------------- 6. same markup as HTMLDocument puts in <head> (Python-side, both real)
